@@ -1,6 +1,7 @@
 """C08 — traversal paths are sound and complete; identity traversal rebuilds faithfully."""
 
 import collections
+import dataclasses
 
 import fiddle as fdl
 from fiddle import daglish
@@ -48,10 +49,10 @@ def strategy_(draw, tier):
             'n_items': draw(st.integers(1, 3)), 'probe_first': draw(st.booleans())}
   recipe = draw(dags.dag(
       max_nodes=12, min_nodes=4,
-      kinds=['B', 'B', 'list', 'tuple', 'dict', 'ddict', 'nt', 'box', 'Bpos', 'ltuple', 'ntuple', 'mdict', 'Bclash'],
+      kinds=['B', 'B', 'list', 'tuple', 'dict', 'ddict', 'nt', 'box', 'Bpos', 'ltuple', 'ntuple', 'mdict', 'Bclash', 'dcinst'],
       fns=['things:f2', 'things:h1', 'things:Base', 'things:kwf'], bts=('Config', 'Partial'),
       root_kinds=['B', 'list', 'tuple', 'dict', 'nt', 'box', 'Bpos'], p_alias=0.85, tags=True))
-  return {'recipe': recipe, 'chain': draw(st.sampled_from([0, 0, 1, 2, 3]))}
+  return {'recipe': recipe, 'chain': draw(st.sampled_from([0, 0, 1, 2, 3])), 'chain_dc': draw(st.booleans())}
 
 
 def strategy(tier):
@@ -357,20 +358,38 @@ def check(case):
   if not has_box:
     _check_growth(root, ref, out)
     if not out.findings and case.get('chain'):
-      _check_registry_chain(root, case['chain'], out)
+      _check_registry_chain(root, case['chain'], out, on_dataclasses=bool(case.get('chain_dc')))
     if not out.findings:
       _check_kwargs_reorder(root, out)
   return out
 
 
-def _check_registry_chain(root, depth, out):
+def _dc_walk(x, path=(), depth=0):
+  """Reference walk in which dataclass instances are nodes (fields in declaration order)."""
+  if depth > 150:
+    raise RecursionError('ref walk too deep')
+  yield path, x
+  if dataclasses.is_dataclass(x) and not isinstance(x, type):
+    ch = [(('a', f.name), getattr(x, f.name)) for f in dataclasses.fields(x)]
+  else:
+    ch = ref_children(x)
+  for pe, c in ch:
+    yield from _dc_walk(c, path + (pe,), depth + 1)
+
+
+def _check_registry_chain(root, depth, out, on_dataclasses=False):
   """A chain of `depth` registries without registrations of their own, each falling back to the
-  next and the last to the default registry, must traverse exactly like the default registry."""
+  next and the last to the default registry (or to fiddle's dataclass registry, which answers
+  through an overridden lookup), must traverse exactly like that last registry."""
   out.cls('registry_chain')
   reg = True
+  if on_dataclasses:
+    from fiddle._src.experimental import dataclasses as fdl_dc
+    reg = fdl_dc.daglish_dataclass_registry
+    out.cls('registry_chain_on_dataclasses')
   for _ in range(depth):
     reg = daglish.NodeTraverserRegistry(use_fallback=reg)
-  ref = list(ref_walk(root))
+  ref = list(_dc_walk(root) if on_dataclasses else ref_walk(root))
   exp_c = collections.Counter(_pk(p) for p, _ in ref)
   try:
     got_c = collections.Counter(_pk(norm_path(p)) for _, p in daglish.iterate(root, memoized=False, registry=reg))
